@@ -2280,14 +2280,42 @@ theorem digit_balc {c : Byte} (h : isDigit c = true) : balc c = true := by
   repeat' constructor
   all_goals (intro hc; subst hc; revert h; decide)
 
-/-- values written without parentheses: everything of `Storable` but aggregates, select values, reals (whose written text
-    is only known to be a real numeral) and negative integers -/
+/-- values written without parentheses: everything of `Storable` but aggregates and select values -/
 def PlainVal {F} : MVal F → Prop
   | .aggr _ => False
   | .one (.sel _ _) => False
-  | .one (.atom (.real _)) => False
-  | .one (.atom (.int i)) => 0 ≤ i
   | _ => True
+
+theorem sign_balc (sg : List Byte) (h : IsSign sg) : sg.all balc = true := by
+  rcases h with rfl | rfl | rfl <;> decide
+
+/-- an integer token holds digits and at most a sign -/
+theorem isInteger_balc (t : List Byte) (h : isInteger t = true) : t.all balc = true := by
+  unfold isInteger at h
+  simp only [Bool.and_eq_true, Bool.not_eq_true', allDigits] at h
+  rcases splitSign_cases t with ⟨r, rfl, hs⟩ | ⟨r, rfl, hs⟩ | ⟨_, _, hs⟩
+  · rw [hs] at h
+    simp only [List.all_cons, Bool.and_eq_true]
+    exact ⟨by decide, all_imp (fun c => digit_balc) _ h.2⟩
+  · rw [hs] at h
+    simp only [List.all_cons, Bool.and_eq_true]
+    exact ⟨by decide, all_imp (fun c => digit_balc) _ h.2⟩
+  · rw [hs] at h
+    exact all_imp (fun c => digit_balc) _ h.2
+
+/-- a real token holds digits, signs, `.` and `E` -/
+theorem isReal_balc (t : List Byte) (h : isReal t = true) : t.all balc = true := by
+  obtain ⟨sg, ip, fp, ex, rfl, hsg, _, hip, hfp, hex⟩ := isReal_shape t h
+  have hexb : (exText 69 ex).all balc = true := by
+    cases ex with
+    | none => simp [exText]
+    | some e =>
+      obtain ⟨esg, ed⟩ := e
+      obtain ⟨h1, _, h3⟩ := hex
+      simp only [exText, List.all_cons, List.all_append, Bool.and_eq_true]
+      exact ⟨by decide, sign_balc esg h1, all_imp (fun c => digit_balc) _ h3⟩
+  simp only [realText, List.all_append, List.all_cons, Bool.and_eq_true]
+  exact ⟨sign_balc sg hsg, all_imp (fun c => digit_balc) _ hip, by decide, all_imp (fun c => digit_balc) _ hfp, hexb⟩
 
 theorem xdigit_balc {c : Byte} (h : isXDigit c = true) : balc c = true := by
   simp only [balc, plainc, Bool.and_eq_true, bne_iff_ne, ne_eq]
@@ -2312,12 +2340,10 @@ theorem storable_bal {F} (env : Env F) (cfg : RWCfg) (a : AttrD) (v : MVal F) (h
     have : writeAttr env.ops cfg env.dict a (.derived : MVal F) = [42] := rfl
     rw [this]; exact bal_of_balc _ (by decide)
   | int hty hder hred i hlo hhi =>
-    have h0 : 0 ≤ i := hp
-    obtain ⟨ds, hds, _, hdig, _⟩ := showInt_nonneg i h0
     have : writeAttr env.ops cfg env.dict a (.one (.atom (.int i)) : MVal F) = showInt i := by
       simp [writeAttr, hty, writeElemAttr, writeAtomCore]
-    rw [this, hds]
-    exact bal_of_balc _ (all_imp (fun c => digit_balc) _ hdig)
+    rw [this]
+    exact bal_of_balc _ (isInteger_balc _ (showInt_spec i).1)
   | str hty hder hred b hb =>
     have : writeAttr env.ops cfg env.dict a (.one (.atom (.str (39 :: (b ++ [39])))) : MVal F) = 39 :: (b ++ [39]) := by
       simp [writeAttr, hty, writeElemAttr, writeAtomCore]
@@ -2331,7 +2357,12 @@ theorem storable_bal {F} (env : Env F) (cfg : RWCfg) (a : AttrD) (v : MVal F) (h
     refine bal_of_balc _ ?_
     simp only [List.all_cons, List.all_append, List.all_nil, Bool.and_true, Bool.and_eq_true]
     exact ⟨by decide, all_imp (fun c => xdigit_balc) _ hhex, by decide⟩
-  | real hty hder hred v hst hnn hbuf => exact absurd hp (by simp [PlainVal])
+  | real hty hder hred v hst hnn hbuf =>
+    obtain ⟨hreal, _⟩ := writeReal_token env.ops v hst
+    have : writeAttr env.ops cfg env.dict a (.one (.atom (.real v)) : MVal F) = writeReal env.ops v := by
+      rcases hty with hty | hty <;> simp [writeAttr, hty, writeElemAttr, writeAtomCore]
+    rw [this]
+    exact bal_of_balc _ (isReal_balc _ hreal)
   | enum ty hty het hder hred i name hget hne hname hfind hset =>
     have htab : enumTable ty = (enumKindOf ty).table := by
       rcases het with rfl | rfl | ⟨items, rfl⟩ <;> rfl
@@ -2380,9 +2411,8 @@ theorem storablePart_of_plain {F} (env : Env F) (cfg : RWCfg) (p : MPart F) (hkw
   ⟨hkw, ed, hent, Or.inr ⟨hrec, storableRec_bal env cfg ed.ownAttrs p.vals hrec hp⟩⟩
 
 /-- **read ∘ write for externally mapped instances, without the side condition** (`_partial`): when the parts' values are
-    of the plain kinds (`PlainVal`: `$`, `*`, non-negative INTEGER, STRING, BINARY, ENUMERATION / BOOLEAN / LOGICAL,
-    references - everything of `Storable` that is written without parentheses; not REAL / NUMBER, selects, aggregates,
-    negative integers), the written parameter text is balanced (`storableRec_bal`) and
+    of the plain kinds (`PlainVal`: `$`, `*`, INTEGER, REAL / NUMBER, STRING, BINARY, ENUMERATION / BOOLEAN / LOGICAL, references -
+    everything of `Storable` that is written without parentheses; not selects and aggregates), the written parameter text is balanced (`storableRec_bal`) and
     `C01_complex_instance_write_read_partial` holds unconditionally. -/
 theorem C01_complex_instance_plain_write_read_partial {F} (ops : FloatOps F) (lex : LexCfg) (cfg : RWCfg) (d : Dict) (strict : Bool)
     (hskip : cfg.skipInstanceSkipsComments = true) (hcri : lex.criSkipsComments = true) (hagg : cfg.aggrSkipsComments = true)
